@@ -137,7 +137,7 @@ pub fn scenario(seed: u64, stepping: Option<Stepping>) -> Made {
         match rng.below(10) {
             0 | 1 => {
                 let name = rng.pick(&variants).clone();
-                let timeout = *rng.pick(&[None, None, None, Some(1u64), Some(999), Some(1000), Some(1500), Some(7000), Some(3_600_000), Some(1001), Some(1003), Some(3002)]);
+                let timeout = *rng.pick(&[None, None, None, Some(1u64), Some(999), Some(1000), Some(1500), Some(7000), Some(3_600_000), Some(1001), Some(1003), Some(3002), Some(0)]);
                 if let Some(c) = w.resolve_hostname(h, &name, timeout) {
                     searches.push((c, name.clone(), w.now(), timeout));
                 }
@@ -200,9 +200,28 @@ pub fn scenario(seed: u64, stepping: Option<Stepping>) -> Made {
                     let sty = wire::name("_elsewhere._tcp.local");
                     let sinst = wire::name("thing._elsewhere._tcp.local");
                     let target = wire::name(&owner);
-                    let mut pre = vec![wire::ptr(&sty, 4500, &sinst), wire::srv(&sinst, 120, 9, &target), wire::txt(&sinst, 4500, vec![0])];
-                    pre.append(&mut m.answers);
-                    m.answers = pre;
+                    // the service's records before the addresses, behind them, or around them (the order inside a
+                    // packet is the sender's business)
+                    let (ptr, srv, txt) = (wire::ptr(&sty, 4500, &sinst), wire::srv(&sinst, 120, 9, &target), wire::txt(&sinst, 4500, vec![0]));
+                    let mut addrs_now = std::mem::take(&mut m.answers);
+                    m.answers = match util::mix(seed, 0xA0 + t) % 3 {
+                        0 => {
+                            let mut v = vec![ptr, srv, txt];
+                            v.append(&mut addrs_now);
+                            v
+                        }
+                        1 => {
+                            let mut v = addrs_now;
+                            v.extend([ptr, srv, txt]);
+                            v
+                        }
+                        _ => {
+                            let mut v = vec![srv, txt];
+                            v.append(&mut addrs_now);
+                            v.push(ptr);
+                            v
+                        }
+                    };
                 }
                 let src = if ifi == 3 { sock4([192, 168, 1, 60], 5353) } else { scen::peer4(60) };
                 w.inject_msg(h, ifi, src, &m);
@@ -495,7 +514,7 @@ pub fn run_one(seed: u64, l: &mut Local) {
 
 pub fn run(report: &Report, tier: &Tier) {
     report.set_rule(
-        "hostname histories: resolve_hostname / stop with the name in lower, upper and mixed case, timeouts {none, 1, 999, 1000, 1001, 1003, 1500, 3002, 7000 ms, 1 h}, \
+        "hostname histories: resolve_hostname / stop with the name in lower, upper and mixed case, timeouts {none, 0, 1, 999, 1000, 1001, 1003, 1500, 3002, 7000 ms, 1 h}, \
          a responder that announces 1..2 addresses at a time (IPv4/IPv6, three per family, owner spelled in any case, TTLs {1,2,10,120} s, \
          on one of up to two interfaces), withdraws them by goodbye, forgets them, answers the daemon's queries or not, foreign records mixed in; \
          observed 150 s past the last call; lazy and eager stepping; distinct by (stepping, operation kinds, topology)",
